@@ -28,8 +28,8 @@ def canon(value: Any) -> str:
         return "{" + ",".join(f"{k}:{v}" for k, v in items) + "}"
     if isinstance(value, (set, frozenset)):
         return "{" + ",".join(sorted(canon(v) for v in value)) + "}"
-    if isinstance(value, Opaque):
-        return f"<Opaque:{value.tag}>"
+    if isinstance(value, (Opaque, Versioned)):
+        return f"<{type(value).__name__}:{value.tag}>"
     return f"<{type(value).__name__}>"
 
 
@@ -47,6 +47,37 @@ class Opaque:
 
     def __repr__(self) -> str:
         return f"<Opaque:{self.tag}>"
+
+
+GENERATION = [0]  # "version of the program": bumped by a check to model an upgrade between two process lifetimes
+
+
+def _load_versioned(tag: int, gen: int) -> Any:
+    if gen != GENERATION[0]:
+        # an AUTHENTIC stored object the current program can no longer load (class changed, __setstate__ version check ...)
+        raise [ValueError, AttributeError, KeyError, ImportError][gen % 4](f"stored object of generation {gen} cannot be loaded by generation {GENERATION[0]}")
+    return Versioned(tag)
+
+
+class Versioned:
+    """A picklable value whose stored form is tied to the program generation that wrote it."""
+
+    __slots__ = ("tag",)
+
+    def __init__(self, tag: int) -> None:
+        self.tag = tag
+
+    def __reduce__(self) -> Any:
+        return (_load_versioned, (self.tag, GENERATION[0]))
+
+    def __eq__(self, other: Any) -> bool:
+        return isinstance(other, Versioned) and other.tag == self.tag
+
+    def __hash__(self) -> int:
+        return self.tag
+
+    def __repr__(self) -> str:
+        return f"<Versioned:{self.tag}>"
 
 
 def digest(value: Any, n: int = 8) -> str:
